@@ -66,6 +66,7 @@ class UnitResult:
         self.wall_s = 0.0
         self.changed_items = []
         self.incomplete_items = {}
+        self.displaced_items = {}     # changed functions with in-body proof steps whose neighbouring real lines changed
         self.unweave = None
 
 
@@ -250,6 +251,7 @@ def _run_unit(unit_path, kf_on, vacuity, extra_args, timeout, keep, seed, isolat
     } for it in unit.items]
     res.changed_items = [it.name for it in unit.items if it.changed]
     res.incomplete_items = {it.name: list(it.lowering_incomplete) for it in unit.items if getattr(it, 'lowering_incomplete', None)}
+    res.displaced_items = {it.name: it.displaced for it in unit.items if getattr(it, 'displaced', 0)}
     tmp = tempfile.mkdtemp(prefix='vf-%s-' % unit.name)
     try:
         suffix = ('_vac' if vacuity else '') + ('' if kf_on else '_strict')
